@@ -1008,46 +1008,63 @@ fn main() {
         std::process::exit(if j.violations.is_empty() { 0 } else { 1 });
     }
 
-    let mut cases = directed();
-    let n_directed = cases.len();
-    let n_random = run.tier.pick(300_000, 6_000_000);
+    let directed_cases = directed();
+    let n_directed = directed_cases.len();
+    let n_random: usize = run.tier.pick(300_000, 4_000_000);
     let mut rng = Rng::new(run.seed, "c27");
-    for _ in 0..n_random {
-        cases.push(gen_case(&mut rng));
-    }
-    let results = par::par_map(cases.len(), |i| {
-        let e = execute(&cases[i]);
-        let v = judge(&cases[i], &e);
-        (e.outcome, e.records.iter().map(|r| r.uri.clone()).collect::<Vec<_>>(), v)
-    });
     let mut unjudged: BTreeMap<String, u64> = BTreeMap::new();
     let mut selfcheck = 0u64;
-    for (i, (outcome, uris, v)) in results.into_iter().enumerate() {
-        run.eval();
-        if v.trivial {
-            run.count("trivial:request-not-built", 1);
-            continue;
+    let mut sampled: std::collections::BTreeSet<String> = Default::default();
+    let mut remaining = n_random;
+    let mut first = true;
+    // batches bound the memory of the thorough tier; the case stream depends only on the seed
+    while first || remaining > 0 {
+        let mut cases: Vec<Case> = if first { directed_cases.clone() } else { Vec::new() };
+        first = false;
+        let take = remaining.min(250_000);
+        remaining -= take;
+        for _ in 0..take {
+            cases.push(gen_case(&mut rng));
         }
-        for (k, n) in &v.counters {
-            run.count(k, *n);
-        }
-        run.count(&format!("outcome:{}", outcome.split(':').take(2).collect::<Vec<_>>().join(":")), 1);
-        for c in &v.classes {
-            run.nontrivial(c.clone());
-        }
-        for u in &v.unjudged {
-            *unjudged.entry(u.clone()).or_insert(0) += 1;
-        }
-        let cj = json!({"case": cases[i], "outcome": outcome, "recorded_uris": uris});
-        run.sample(&format!("{}:{}", cases[i].kind, outcome.split(':').take(2).collect::<Vec<_>>().join(":")), 1, cj.clone());
-        for s in &v.selfcheck_fail {
-            selfcheck += 1;
-            if selfcheck <= 5 {
-                println!("SELF-CHECK MISMATCH (harness): {s}");
+        let results = par::par_map(cases.len(), |i| {
+            let e = execute(&cases[i]);
+            let v = judge(&cases[i], &e);
+            (e.outcome, e.records.iter().map(|r| r.uri.clone()).collect::<Vec<_>>(), v)
+        });
+        for (i, (outcome, uris, v)) in results.into_iter().enumerate() {
+            run.eval();
+            if v.trivial {
+                run.count("trivial:request-not-built", 1);
+                continue;
             }
-        }
-        for (sig, what) in &v.violations {
-            run.violation(sig, what, cj.clone());
+            for (k, n) in &v.counters {
+                run.count(k, *n);
+            }
+            let oc = outcome.split(':').take(2).collect::<Vec<_>>().join(":");
+            run.count(&format!("outcome:{oc}"), 1);
+            for c in &v.classes {
+                run.nontrivial(c.clone());
+            }
+            for u in &v.unjudged {
+                *unjudged.entry(u.clone()).or_insert(0) += 1;
+            }
+            for s in &v.selfcheck_fail {
+                selfcheck += 1;
+                if selfcheck <= 5 {
+                    println!("SELF-CHECK MISMATCH (harness): {s}");
+                }
+            }
+            let kind = format!("{}:{oc}", cases[i].kind);
+            let need_sample = sampled.insert(kind.clone());
+            if need_sample || !v.violations.is_empty() {
+                let cj = json!({"case": cases[i], "outcome": outcome, "recorded_uris": uris});
+                if need_sample {
+                    run.sample(&kind, 1, cj.clone());
+                }
+                for (sig, what) in &v.violations {
+                    run.violation(sig, what, cj.clone());
+                }
+            }
         }
     }
     if selfcheck > 0 {
